@@ -60,10 +60,26 @@ def check_frames_known_to_qualifier(S, rule):
     r2 = rule
     if ap is not None:
         known = set()
+        # a frame may be tested through a variable that ranges over literals (`for suffix in [" | null", " | undefined"] { .. strip_suffix(suffix) .. }`,
+        # `let close = "]";`)
+        ranging = {}
+        for e in walk_block(ap.body):
+            if e.get("k") == "for" and e["pat"].get("k") == "ident":
+                it_ = e["iter"]
+                while it_.get("k") in ("ref", "paren") or (it_.get("k") == "mcall" and it_["method"] in ("iter", "into_iter", "copied", "cloned")):
+                    it_ = it_["expr"] if it_.get("k") in ("ref", "paren") else it_["recv"]
+                if it_.get("k") == "array":
+                    lits_ = [lit_text(x_) for x_ in it_["elems"]]
+                    if lits_ and all(v_ is not None for v_ in lits_):
+                        ranging[e["pat"]["name"]] = lits_
+        for st_ in ap.body:
+            if st_.get("k") == "let" and st_.get("init") is not None and (st_.get("pat") or {}).get("k") == "ident" and lit_text(st_["init"]) is not None:
+                ranging[st_["pat"]["name"]] = [lit_text(st_["init"])]
         for e in walk_block(ap.body):
             if e.get("k") == "mcall" and e["method"] in ("starts_with", "ends_with", "strip_prefix", "strip_suffix") and e["args"]:
-                v_ = lit_text(e["args"][0])
-                if v_ is not None:
+                a_ = e["args"][0]
+                vals_ = [lit_text(a_)] if lit_text(a_) is not None else (ranging.get(a_["segs"][0], []) if a_.get("k") == "path" and len(a_.get("segs", [])) == 1 else [])
+                for v_ in vals_:
                     known.add((e["method"] in ("starts_with", "strip_prefix"), v_))
         for (qn, first, last) in renderer_frames(S):
             ftok, ltok = first.lstrip(), last.rstrip()
@@ -230,10 +246,41 @@ def check(ctx):
         r2.bad(V(r2.id, "<anchor>", "missing:add_types_prefix", "anchor not found"))
     else:
         n_br = 0
-        for st in ap.body:
-            for e in stmt_exprs(st):
-                if e.get("k") != "if":
+
+        def _lit_array(it_):
+            while it_.get("k") in ("ref", "paren") or (it_.get("k") == "mcall" and it_["method"] in ("iter", "into_iter", "copied", "cloned")):
+                it_ = it_["expr"] if it_.get("k") in ("ref", "paren") else it_["recv"]
+            return it_.get("k") == "array" and bool(it_["elems"]) and all(lit_text(x_) is not None for x_ in it_["elems"])
+
+        def decision_ifs(stmts, ranging=frozenset()):
+            """the branches of the decision list: top-level `if`s, and those written once for several literals (`for suffix in [" | null", ..] { if .. }`)"""
+            for st_ in stmts:
+                for e_ in stmt_exprs(st_):
+                    if e_.get("k") == "if":
+                        yield e_, ranging
+                    elif e_.get("k") == "for" and e_["pat"].get("k") == "ident" and _lit_array(e_["iter"]):
+                        yield from decision_ifs(e_["body"], ranging | {e_["pat"]["name"]})
+
+        def builder_components(stmts, name):
+            """`let mut x = INIT; x.push_str(A); x.push(B); .. x` -> [INIT, A, B], None when x is anything else"""
+            comps = None
+            for st_ in stmts:
+                if st_.get("k") == "let" and (st_.get("pat") or {}).get("k") == "ident" and st_["pat"]["name"] == name and st_.get("init") is not None:
+                    comps = [st_["init"]]
                     continue
+                for e_ in stmt_exprs(st_):
+                    for x_ in walk(e_):
+                        if x_.get("k") == "mcall" and expr_text(x_["recv"]) == name:
+                            if x_["method"] in ("push_str", "push") and x_["args"] and comps is not None:
+                                a_ = x_["args"][0]
+                                comps.append(a_["expr"] if a_.get("k") == "ref" else a_)
+                            elif x_["method"] not in ("as_str", "len", "is_empty", "clone", "to_string"):
+                                return None
+                        elif x_.get("k") == "assign" and expr_text(x_["l"]) == name:
+                            return None
+            return comps
+        for (e, ranging_vars) in decision_ifs(ap.body):
+            if True:
                 n_br += 1
                 cond = e["cond"]
                 ctext = expr_text(cond) if cond.get("k") != "letcond" else "let %s = %s" % ("..", expr_text(cond["expr"]))
@@ -264,6 +311,18 @@ def check(ctx):
                             else:
                                 r2.bad(V(r2.id, "add_types_prefix", "unchanged-under-open-guard:%s" % lits,
                                          "under `%s` the type text is returned unchanged although it may contain custom type names" % ctext))
+                    elif v.get("k") == "path" and len(v.get("segs", [])) == 1 and builder_components(e["then"], v["segs"][0]) is not None:
+                        # the result assembled piece by piece in a String
+                        for a in builder_components(e["then"], v["segs"][0]):
+                            at = expr_text(a)
+                            if at.startswith("add_types_prefix("):
+                                r2.ok("component re-qualified recursively in `%s`" % ctext[:40])
+                            elif lit_text(a) is not None or (a.get("k") == "path" and len(a.get("segs", [])) == 1 and a["segs"][0] in ranging_vars) \
+                                    or (a.get("k") in ("call", "mcall") and a.get("args") is not None and at.startswith(("String::new(", "String::with_capacity("))):
+                                continue
+                            else:
+                                r2.bad(V(r2.id, "add_types_prefix", "component-not-recursed:%s" % lits,
+                                         "under `%s` the component `%s` is re-assembled without being qualified recursively" % (ctext, at)))
                     elif v.get("k") != "macro" or v["name"] != "format":
                         r2.bad(V(r2.id, "add_types_prefix", "unrecognised-branch:%s:%s" % (lits, t[:40]),
                                  "under `%s` the result `%s` is neither the unchanged text nor a re-assembly of recursively qualified components" % (ctext, t)))
